@@ -47,6 +47,12 @@ def uncps(t):
     return "" if t == "-" else "".join(chr(int(x)) for x in t.split(","))
 
 
+import re as _re
+_DG = r"[0-9](?:_?[0-9])*"
+DOCUMENTED_NUMBER = _re.compile(
+    rf"(?:{_DG}(?:\.{_DG})?(?:[eE][+-]?{_DG})?|0[bB](?:_?[01])+|0[oO](?:_?[0-7])+|0[xX](?:_?[0-9a-fA-F])+)")
+
+
 def py_literal(s):
     """Python's own reading of the spelling as ONE numeric literal -> ('int', v) | ('float', v) | None"""
     try:
@@ -161,6 +167,14 @@ def check_numbers(ctx, R, spellings, prefix, limit):
             elif (pl[0] == "int") != (kind == "integer") or type(pl[1]) is not type(val) or \
                     (pl[1] != val if kind == "integer" else float.hex(pl[1]) != float.hex(val)):
                 why = f"the lexer reads {s!r} as {val!r}, Python as {pl[1]!r}"
+        # the other direction (first sentence of the property): a Python number literal written in the documented
+        # template syntax -- digit groups separated by single underscores, a point with digits on both sides, an
+        # exponent; 0b / 0o / 0x integers -- must be read as ONE number with Python's value
+        if not prefix and why is None and DOCUMENTED_NUMBER.fullmatch(s):
+            pl = py_literal(s)
+            over = limit and s[1:2] not in tuple("bBoOxX") and sum(ch.isdigit() for ch in s) > limit
+            if pl is not None and not over and not (whole and nontriv and val != "ERR"):
+                why = f"{s!r} is the Python literal {pl[1]!r} in the documented template syntax but the lexer does not read it as one number (first token {kind} of length {rlen})"
         if isinstance(val, str) and val.startswith("X:"):
             why = f"number conversion of {s!r} raised {val[2:]} (not a TemplateSyntaxError)"
         if why:
